@@ -48,10 +48,11 @@ type Kernel struct {
 	draining bool
 	ctl      uint64 // the controller goroutine never parks
 
-	Step    int
-	evHash  uint64
-	evCount int
-	GateN   int // gate passes (evaluations) so far
+	Step      int
+	evHash    uint64
+	evCount   int
+	GateN     int // gate passes (evaluations) so far
+	Ambiguous bool
 }
 
 // alwaysPark: after these points the task would otherwise run on in parallel with a task it has just
@@ -132,9 +133,9 @@ func (k *Kernel) Park(point string) {
 	}
 	tk := k.tasks[gid]
 	if tk == nil {
-		role := roleOf(point)
-		k.roleN[role]++
-		tk = &Task{Name: fmt.Sprintf("%s#%d", role, k.roleN[role]), Role: role, gid: gid}
+		// named lazily by the controller (nameNew): two tasks of one role that first park in the same
+		// step (two timers fired by one clock advance) are ordered by goroutine creation, not by arrival
+		tk = &Task{Role: roleOf(point), gid: gid}
 		k.tasks[gid] = tk
 	}
 	// The gate consumes credit. Every other point parks unless it is pass-through in this run;
@@ -171,6 +172,24 @@ func (k *Kernel) Wait() { synctest.Wait() }
 func (k *Kernel) Parked() []*Task {
 	k.mu.Lock()
 	ps := append([]*Task(nil), k.parked...)
+	var fresh []*Task
+	for _, t := range ps {
+		if t.Name == "" {
+			fresh = append(fresh, t)
+		}
+	}
+	sort.Slice(fresh, func(i, j int) bool { return fresh[i].gid < fresh[j].gid })
+	for i := 1; i < len(fresh); i++ {
+		if fresh[i].Role == fresh[i-1].Role {
+			// two timers with the very same deadline: their goroutines start concurrently and cannot be
+			// told apart in a replayable way. The run stops being judged (counted as inconclusive).
+			k.Ambiguous = true
+		}
+	}
+	for _, t := range fresh {
+		k.roleN[t.Role]++
+		t.Name = fmt.Sprintf("%s#%d", t.Role, k.roleN[t.Role])
+	}
 	k.mu.Unlock()
 	sort.Slice(ps, func(i, j int) bool {
 		if ps[i].Role != ps[j].Role {
@@ -225,10 +244,11 @@ func (k *Kernel) Event(s string) {
 	k.evCount++
 }
 
+// OverBudget: the run must end without a verdict (work budget exhausted, or tasks that cannot be named replayably).
 func (k *Kernel) OverBudget() bool {
 	k.mu.Lock()
 	defer k.mu.Unlock()
-	return k.GateN > GateBudget
+	return k.GateN > GateBudget || k.Ambiguous
 }
 
 func (k *Kernel) InterleavingHash() uint64 { return k.evHash }
